@@ -1405,6 +1405,17 @@ def str_method(eng, recv, name, args, kwargs, st):
             k = pre.find(sub, start)
             if k >= 0:
                 return ok(k, st)  # the first occurrence lies inside the literal prefix: independent of the symbolic rest
+        if isinstance(sub, str) and len(sub) == 1 and start == 0 and not isinstance(start, bool):
+            # structural first occurrence (exact): symbolic holes are skipped only when the path condition entails that they do not contain the character
+            from . import structstr
+            ps_ = structstr.parts(s)
+            if len(ps_) > 1:
+                r_ = structstr.first_index(ps_, sub, lambda sy: smt.quick_check(st.pc, z3.Contains(sy, z3.StringVal(sub))) == "unsat")
+                if r_ is not None and r_[0] == "at":
+                    off = structstr.offset_term(ps_, r_[1], r_[2])
+                    return ok(off if isinstance(off, int) else Sym(off, "int"), st)
+                if r_ is not None and r_[0] == "none":
+                    return ok(-1, st)
         n = z3.Length(s)
         stt = eng._num(start)
         stt = z3.If(stt < 0, z3.If(stt + n < 0, z3.IntVal(0), stt + n), stt)
@@ -1469,6 +1480,29 @@ def str_method(eng, recv, name, args, kwargs, st):
             parts.append(it)
         return ok(concat(parts) if parts else "", st)
     if name == "split":
+        if len(args) == 1 and isinstance(args[0], str) and len(args[0]) == 1:
+            # structural split (exact): a text with a literal skeleton whose symbolic holes provably do not contain the one-character separator is
+            # split on its skeleton - the pieces are the concatenations between the separators of the literal parts
+            from . import structstr
+            ps = structstr.parts(s)
+            if any(k == "lit" and args[0] in v for k, v in ps) and all(
+                    k == "lit" or smt.quick_check(st.pc, z3.Contains(v, z3.StringVal(args[0]))) == "unsat" for k, v in ps):
+                pieces, cur = [], []
+                for k, v in ps:
+                    if k == "sym":
+                        cur.append((k, v))
+                        continue
+                    for j, seg in enumerate(v.split(args[0])):
+                        if j:
+                            pieces.append(cur)
+                            cur = []
+                        cur.append(("lit", seg))
+                pieces.append(cur)
+                vals = []
+                for pc_ in pieces:
+                    b = structstr.build(pc_)
+                    vals.append(b if isinstance(b, str) else Sym(b, "str"))
+                return ok(st.alloc(HList(vals)), st)
         if len(args) == 1 and isinstance(args[0], str) and args[0] != "" and getattr(eng, "split_forks", False):
             # s.split(sep): when sep does not occur the result is [s]; otherwise an opaque list
             occurs = z3.Contains(s, z3.StringVal(args[0]))
